@@ -50,6 +50,7 @@ type Contract struct {
 // optionally bounded by a rely condition over "self" and the new value "v".
 type MonoDecl struct {
 	Rely SExpr
+	Guar SExpr
 	Src  string
 }
 
@@ -298,11 +299,25 @@ func (cs *ContractSet) addClause(cur **Contract, pkg, kw, rest, where string) er
 		name := strings.TrimSpace(rest)
 		if i := strings.Index(rest, " rely "); i >= 0 {
 			name = strings.TrimSpace(rest[:i])
-			e, err := parseSpec(rest[i+6:])
+			relySrc := rest[i+6:]
+			// "rely R guar G": R is assumed of other goroutines' writes, G is
+			// checked on this code's own writes (default G = R)
+			if j := strings.Index(relySrc, " guar "); j >= 0 {
+				g, err := parseSpec(relySrc[j+6:])
+				if err != nil {
+					return fmt.Errorf("%s: %v", where, err)
+				}
+				md.Guar = g
+				relySrc = relySrc[:j]
+			}
+			e, err := parseSpec(relySrc)
 			if err != nil {
 				return fmt.Errorf("%s: %v", where, err)
 			}
 			md.Rely = e
+			if md.Guar == nil {
+				md.Guar = e
+			}
 			md.Src = rest[i+6:]
 		}
 		cs.Monotone[pkg+"::"+name] = md
